@@ -66,6 +66,11 @@ def spell_dtype(dt, k):
     return sp[k % len(sp)]
 
 
+def spell_true(k):
+    """A true flag written as True / 1 / np.True_ / np.bool_(1) (k any integer; 0 is True itself)."""
+    return [True, 1, np.True_, np.bool_(1)][k % 4]
+
+
 st_type = st.sampled_from(NUMTYPES)
 st_bo = st.sampled_from(BYTEORDERS)
 
